@@ -27,6 +27,7 @@ struct JudgeOut {
 	uint64_t evals = 0;       // executions of the plan (variants, enumerated faults)
 	bool discarded = false;   // baseline not usable (DESIGN appendix B)
 	std::vector<uint64_t> distinct; // fingerprints of distinct non-trivial cases explored
+	std::vector<uint64_t> states;   // fingerprints of the context states (canonical dumps) reached
 	Counters k;               // fault / reach / coverage counters
 };
 
